@@ -30,13 +30,14 @@ Definition s_NaN : ustr := [78; 97; 78]%N.
 Definition s_inf (neg : bool) : ustr := if neg then [45; 105; 110; 102]%N else [105; 110; 102]%N.
 
 (** branches of Column._lit *)
-Inductive lact := AStruct | AArray | ATuple | AMap | ANanCast | ATsCast.
+Inductive lact := AStruct | AArray | ATuple | AMap | ANanCast (t : sty) | AInfCast | ATsCast.
 (** branches of functions.lit *)
 Inductive fact := FStrLit | FInfStr.
 
 Definition lact_eqb (a b : lact) : bool :=
   match a, b with
-  | AStruct, AStruct | AArray, AArray | ATuple, ATuple | AMap, AMap | ANanCast, ANanCast | ATsCast, ATsCast => true
+  | AStruct, AStruct | AArray, AArray | ATuple, ATuple | AMap, AMap | AInfCast, AInfCast | ATsCast, ATsCast => true
+  | ANanCast x, ANanCast y => sty_eqb x y
   | _, _ => false
   end.
 Definition fact_eqb (a b : fact) : bool :=
@@ -126,7 +127,8 @@ Section Lit.
         | PDict kv => LMap (map (fun p => lit_nested (fst p)) kv) (map (fun p => lit_nested (snd p)) kv)
         | _ => LErr
         end
-    | Some ANanCast => LCastStr s_NaN TFloat
+    | Some (ANanCast t) => LCastStr s_NaN t
+    | Some AInfCast => match v with PFloat (FInf neg) => LCastStr (s_inf neg) TDouble | _ => LErr end
     | Some ATsCast => match v with PTs us None => LTs us | PTs us (Some _) => LTsTz us | _ => LErr end
     | None =>
         match v with
@@ -142,6 +144,11 @@ Section Lit.
     | Some FInfStr => match v with PFloat (FInf neg) => LStr (s_inf neg) | _ => LErr end
     | None => match v with PStr _ => LErr (* Column('text') parses a column name *) | _ => lit_nested v end
     end.
+
+  (** a cell of createDataFrame's VALUES clause: floats through Column._lit (regenerated flag), everything
+      else through functions.lit *)
+  Definition cell_lit (floats_via_lit : bool) (v : pyval) : lit :=
+    if floats_via_lit && match v with PFloat _ => true | _ => false end then lit_nested v else lit_top v.
 End Lit.
 
 (** the pattern-matching definitions the property needs *)
@@ -151,7 +158,8 @@ Fixpoint std_lit_nested (v : pyval) : lit :=
   | PList l => LArr (map std_lit_nested l)
   | PTuple l => LTuple (map std_lit_nested l)
   | PDict kv => LMap (map (fun p => std_lit_nested (fst p)) kv) (map (fun p => std_lit_nested (snd p)) kv)
-  | PFloat FNaN => LCastStr s_NaN TFloat
+  | PFloat FNaN => LCastStr s_NaN TDouble
+  | PFloat (FInf neg) => LCastStr (s_inf neg) TDouble
   | _ => convert_leaf v
   end.
 
@@ -165,7 +173,7 @@ Definition std_lact (c : pycls) (fl : flav) : option lact :=
   match c with
   | CRow => Some AStruct | CList | CSet => Some AArray | CTuple => Some ATuple | CDict => Some AMap
   | CDatetime => Some ATsCast
-  | CFloat => match fl with FlNan => Some ANanCast | _ => None end
+  | CFloat => match fl with FlNan => Some (ANanCast TDouble) | FlInf => Some AInfCast | FlPlain => None end
   | _ => None
   end.
 Definition std_fact (c : pycls) (fl : flav) : option fact :=
@@ -185,7 +193,10 @@ Definition litfn_chain_ok (fch : chain fact) : bool :=
   forallb (fun c => forallb (fun fl => oeqb fact_eqb (first_match fch c fl true false) (std_fact c fl)) all_flav) all_cls.
 
 Lemma oeqb_lact a b : oeqb lact_eqb a b = true -> a = b.
-Proof. destruct a as [x|], b as [y|]; cbn; try congruence. destruct x, y; cbn; congruence. Qed.
+Proof.
+  destruct a as [x|], b as [y|]; cbn; try congruence. destruct x, y; cbn; try congruence.
+  intro H. apply sty_eqb_eq in H. congruence.
+Qed.
 Lemma oeqb_fact a b : oeqb fact_eqb a b = true -> a = b.
 Proof. destruct a as [x|], b as [y|]; cbn; try congruence. destruct x, y; cbn; congruence. Qed.
 
@@ -226,6 +237,9 @@ Proof.
     + apply map_ext_Forall. eapply Forall_impl; [|exact H]. cbn. tauto.
 Qed.
 
+Lemma cell_lit_is_std_aux : forall v, match v with PFloat _ => False | _ => True end -> std_lit_top v = std_lit_nested v.
+Proof. destruct v; try reflexivity. intro H; destruct H. Qed.
+
 Lemma lit_top_is_std lch fch : lit_chain_ok lch = true -> litfn_chain_ok fch = true ->
   forall v, lit_top lch fch v = std_lit_top v.
 Proof.
@@ -238,6 +252,15 @@ Proof.
   - destruct f; cbn [flav_of std_fact std_lit_top]; try reflexivity; apply lit_nested_is_std; assumption.
   - reflexivity.
 Qed.
+
+Lemma cell_lit_is_std lch fch : lit_chain_ok lch = true -> litfn_chain_ok fch = true ->
+  forall v, cell_lit lch fch true v = std_lit_nested v.
+Proof.
+  intros Hl Hf v. unfold cell_lit. destruct v; cbn [andb];
+    try (rewrite (lit_top_is_std lch fch Hl Hf); apply cell_lit_is_std_aux; exact I).
+  apply lit_nested_is_std; assumption.
+Qed.
+
 
 (* ------------------------------------------------------------------------------------------------ *)
 (** * Engine values, evaluation of literals, CAST, client conversion *)
@@ -314,7 +337,8 @@ Section Engine.
     e_num : forall b e, eleaf (LNum (FFin b e)) = Some (if e then DDbl (FFin b e) else DDec (FFin b e));
     (* = Lex.string_roundtrip read as a statement about the engine: a NUL-free literal denotes its content *)
     e_str : forall s, nul_free s = true -> eleaf (LStr s) = Some (DStr s);
-    e_nan : eleaf (LCastStr s_NaN TFloat) = Some (DFlt FNaN);
+    e_nan : eleaf (LCastStr s_NaN TDouble) = Some (DDbl FNaN);
+    e_inf : forall neg, eleaf (LCastStr (s_inf neg) TDouble) = Some (DDbl (FInf neg));
     e_hex : forall b, eleaf (LHex b) = Some (DBlob b);
     e_date : forall d, eleaf (LDate d) = Some (DDate d);
     e_ts : forall us, eleaf (LTs us) = Some (DTs us);
@@ -324,8 +348,6 @@ Section Engine.
     (* DECIMAL numeral of repr(f) -> DOUBLE is correctly rounded, hence f *)
     c_dec : forall f, cleaf TDouble (DDec f) = Some (DDbl f);
     c_dbl : forall f, cleaf TDouble (DDbl f) = Some (DDbl f);
-    c_flt_nan : cleaf TDouble (DFlt FNaN) = Some (DDbl FNaN);
-    c_inf : forall neg, cleaf TDouble (DStr (s_inf neg)) = Some (DDbl (FInf neg));
     c_str : forall s, cleaf TString (DStr s) = Some (DStr s);
     c_blob : forall b, cleaf TBinary (DBlob b) = Some (DBlob b);
     c_date : forall d, cleaf TDate (DDate d) = Some (DDate d);
@@ -337,7 +359,6 @@ Section Engine.
     p_int : forall z, pleaf (DInt z) = PInt z;
     p_dec : forall f, pleaf (DDec f) = PDec f;
     p_dbl : forall f, pleaf (DDbl f) = PFloat f;
-    p_flt : forall f, pleaf (DFlt f) = PFloat f;
     p_str : forall s, pleaf (DStr s) = PStr s;
     p_blob : forall b, pleaf (DBlob b) = PBytes b;
     p_date : forall d, pleaf (DDate d) = PDate d;
@@ -349,9 +370,9 @@ End Engine.
 (* ------------------------------------------------------------------------------------------------ *)
 (** * Result conversion: _to_value / _to_row / _create_row *)
 
-Inductive vact := VMap | VRow | VList | VStripTz.
+Inductive vact := VMap | VRow | VList | VStripTz | VFloat.
 Definition vact_eqb (a b : vact) : bool :=
-  match a, b with VMap, VMap | VRow, VRow | VList, VList | VStripTz, VStripTz => true | _, _ => false end.
+  match a, b with VMap, VMap | VRow, VRow | VList, VList | VStripTz, VStripTz | VFloat, VFloat => true | _, _ => false end.
 
 Definition s_key : ustr := [107; 101; 121]%N.
 Definition s_value : ustr := [118; 97; 108; 117; 101]%N.
@@ -366,13 +387,27 @@ Definition is_pstr (v : pyval) : bool := match v with PStr _ => true | _ => fals
 Definition has_key (k : ustr) (kv : list (pyval * pyval)) : bool :=
   existsb (fun p => match fst p with PStr s => ueqb s k | _ => false end) kv.
 
-(** DuckDBSession._try_get_map returns a map: non-empty dict that has the keys key and value (DuckDB < 1.1
-    layout) or has a key that is not a str *)
-Definition maplike_of (v : pyval) : bool :=
+Definition dict_get (k : ustr) (kv : list (pyval * pyval)) : option pyval :=
+  match find (fun p => match fst p with PStr s => ueqb s k | _ => false end) kv with
+  | Some p => Some (snd p)
+  | None => None
+  end.
+
+(** DuckDBSession._try_get_map returns a map: non-empty dict whose entries key and value are lists of equal
+    length (DuckDB < 1.1 layout; [legacy_any] = the unrepaired test, mere presence of both keys) or that has
+    a key that is not a str *)
+Definition maplike_gen (legacy_any : bool) (v : pyval) : bool :=
   match v with
-  | PDict kv => truthy_of v && ((has_key s_key kv && has_key s_value kv) || existsb (fun p => negb (is_pstr (fst p))) kv)
+  | PDict kv => truthy_of v &&
+      ((if legacy_any then has_key s_key kv && has_key s_value kv
+        else match dict_get s_key kv, dict_get s_value kv with
+             | Some (PList a), Some (PList b) => Nat.eqb (List.length a) (List.length b)
+             | _, _ => false
+             end)
+       || existsb (fun p => negb (is_pstr (fst p))) kv)
   | _ => false
   end.
+Definition maplike_of := maplike_gen false.
 
 Definition key_name (k : pyval) : ustr := match k with PStr s => s | _ => [] end.
 
@@ -390,6 +425,7 @@ Section ToValue.
     | Some VRow => match v with PDict kv => PRow (map (fun p => (key_name (fst p), fix_dec (to_value (snd p)))) kv) | _ => v end
     | Some VList => match v with PList l | PTuple l => PList (map to_value l) | _ => v end
     | Some VStripTz => match v with PTs us _ => PTs us None | _ => v end
+    | Some VFloat => match v with PDec f => PFloat f | _ => v end
     | None => v
     end.
 End ToValue.
@@ -403,6 +439,7 @@ Fixpoint std_to_value (v : pyval) : pyval :=
   | PList l => match l with [] => v | _ => PList (map std_to_value l) end
   | PTuple l => match l with [] => v | _ => PList (map std_to_value l) end
   | PTs us _ => PTs us None
+  | PDec f => PFloat f
   | _ => v
   end.
 
@@ -411,6 +448,7 @@ Definition std_vact (c : pycls) (truthy maplike : bool) : option vact :=
   | CDict => if maplike then Some VMap else Some VRow
   | CList | CSet | CTuple | CRow => if truthy then Some VList else None
   | CDatetime => Some VStripTz
+  | CDecimal => Some VFloat
   | _ => None
   end.
 
@@ -460,28 +498,6 @@ Qed.
 (* ------------------------------------------------------------------------------------------------ *)
 (** * The pipeline and the round trip *)
 
-Section Pipeline.
-  Variable eleaf : lit -> option dbval.
-  Variable cleaf : sty -> dbval -> option dbval.
-  Variable pleaf : dbval -> pyval.
-  Variable lch : chain lact.
-  Variable fch : chain fact.
-  Variable vch : chain vact.
-
-  (** one cell: F.lit(x) in the VALUES row, optional CAST to the column type, fetch, _to_value, _create_row *)
-  Definition run (ty : option sty) (l : lit) : option pyval :=
-    match eval eleaf l with
-    | None => None
-    | Some d =>
-        match (match ty with Some t => cast cleaf t d | None => Some d end) with
-        | None => None
-        | Some d' => Some (fix_dec (to_value vch (client pleaf d')))
-        end
-    end.
-
-  Definition pipeline (ty : option sty) (v : pyval) : option pyval := run ty (lit_top lch fch v).
-End Pipeline.
-
 (** the value the property promises: the same value; an aware timestamp comes back as the naive UTC wall clock
     (PySpark's TimestampType under a UTC session does the same) *)
 Fixpoint expected (v : pyval) : pyval :=
@@ -500,13 +516,11 @@ Fixpoint nodup_keys {A} (fs : list (ustr * A)) : bool :=
 
 Definition has_field {A} (k : ustr) (fs : list (ustr * A)) : bool := existsb (fun p => ueqb (fst p) k) fs.
 
-(** values the theorem speaks about, as nested members: NUL-free strings, 64-bit ints, no infinity (inside a
-    container the literal is the bare word inf), non-empty structs with distinct field names that are not the
-    pair key/value; tuples, dicts and Decimals are not in the property's list *)
+(** values the theorem speaks about: NUL-free strings, 64-bit ints, any float, non-empty structs with distinct
+    field names that are not the pair key/value; tuples, dicts and Decimals are not in the property's list *)
 Fixpoint supp (v : pyval) : bool :=
   match v with
   | PInt z => int64 z
-  | PFloat (FInf _) => false
   | PStr s => nul_free s
   | PList l => forallb supp l
   | PRow fs => negb (match fs with [] => true | _ => false end) && nodup_keys fs
@@ -516,16 +530,12 @@ Fixpoint supp (v : pyval) : bool :=
   | _ => true
   end.
 
-Definition supported (v : pyval) : bool :=
-  match v with PFloat _ => true | _ => supp v end.
-
 (** the engine value a supported value's literal denotes ... *)
 Fixpoint D0 (v : pyval) : dbval :=
   match v with
   | PNone => DNull | PBool b => DBool b | PInt z => DInt z
-  | PFloat FNaN => DFlt FNaN
   | PFloat (FFin b e) => if e then DDbl (FFin b e) else DDec (FFin b e)
-  | PFloat (FInf n) => DStr (s_inf n)
+  | PFloat f => DDbl f
   | PDec f => DDec f
   | PStr s => DStr s | PBytes b => DBlob b | PDate d => DDate d
   | PTs us None => DTs us | PTs us (Some _) => DTsTz us
@@ -577,7 +587,7 @@ Section Roundtrip.
     - intros _. apply (e_null _ _ _ ENV).
     - intros b _. apply (e_bool _ _ _ ENV).
     - intros z H. apply (e_int _ _ _ ENV). exact H.
-    - intros f H. destruct f as [|n|b e]; [apply (e_nan _ _ _ ENV)|discriminate|apply (e_num _ _ _ ENV)].
+    - intros f H. destruct f as [|n|b e]; [apply (e_nan _ _ _ ENV)|apply (e_inf _ _ _ ENV)|apply (e_num _ _ _ ENV)].
     - intros f H. discriminate.
     - intros s H. apply (e_str _ _ _ ENV). exact H.
     - intros b _. apply (e_hex _ _ _ ENV).
@@ -603,8 +613,8 @@ Section Roundtrip.
     - intros b t _ H. destruct t; try discriminate. apply (c_bool _ _ _ ENV).
     - intros z t _ H. destruct t; try discriminate. apply (c_int _ _ _ ENV). exact H.
     - intros f t Hs H. destruct t; try discriminate. destruct f as [|n|b e].
-      + apply (c_flt_nan _ _ _ ENV).
-      + discriminate.
+      + apply (c_dbl _ _ _ ENV).
+      + apply (c_dbl _ _ _ ENV).
       + cbn [D0 D1]. destruct e; cbn [cast]; [apply (c_dbl _ _ _ ENV)|apply (c_dec _ _ _ ENV)].
     - intros f t Hs _. discriminate.
     - intros s t _ H. destruct t; try discriminate. apply (c_str _ _ _ ENV).
@@ -679,22 +689,25 @@ Section Roundtrip.
     - intros kv _ t Hs _. discriminate.
   Qed.
 
+  Lemma dict_get_struct (fs : list (ustr * dbval)) (f : dbval -> pyval) k :
+    has_field k fs = false -> dict_get k (map (fun kv => (PStr (fst kv), f (snd kv))) fs) = None.
+  Proof.
+    unfold dict_get, has_field. induction fs as [|[k1 x1] r IH]; [reflexivity|].
+    cbn [map existsb find fst snd]. intro H. apply orb_false_iff in H. destruct H as [H1 H2].
+    rewrite H1. apply IH. exact H2.
+  Qed.
+
   Lemma maplike_struct_false (fs : list (ustr * dbval)) (f : dbval -> pyval) :
     (has_field s_key fs && has_field s_value fs) = false ->
     maplike_of (PDict (map (fun kv => (PStr (fst kv), f (snd kv))) fs)) = false.
   Proof.
-    intro H. unfold maplike_of.
-    assert (A : forall k, has_key k (map (fun kv => (PStr (fst kv), f (snd kv))) fs) = has_field k fs).
-    { clear H. intro k. unfold has_key, has_field. induction fs as [|[k1 x1] r IH]; [reflexivity|].
-      cbn [map existsb fst]. rewrite IH. reflexivity. }
-    rewrite !A. rewrite H. cbn [orb].
+    intro H. unfold maplike_of, maplike_gen.
     assert (B : existsb (fun p => negb (is_pstr (fst p))) (map (fun kv => (PStr (fst kv), f (snd kv))) fs) = false).
-    { clear A. induction fs as [|[k1 x1] r IH]; [reflexivity|]. cbn [map existsb fst is_pstr negb orb]. apply IH.
-      destruct (has_field s_key r && has_field s_value r) eqn:E; [|reflexivity].
-      exfalso. apply andb_true_iff in E. destruct E as [E1 E2].
-      unfold has_field in H. cbn [existsb] in H. unfold has_field in E1, E2. rewrite E1, E2 in H.
-      rewrite !orb_true_r in H. discriminate. }
-    rewrite B. apply andb_false_r.
+    { clear H. induction fs as [|[k1 x1] r IH]; [reflexivity|]. cbn [map existsb fst is_pstr negb orb]. exact IH. }
+    rewrite B. rewrite orb_false_r.
+    apply andb_false_iff in H. destruct H as [H|H]; rewrite (dict_get_struct fs f _ H).
+    - apply andb_false_r.
+    - destruct (dict_get s_key _) as [[]|]; apply andb_false_r.
   Qed.
 
   Lemma has_field_map_snd {A B} (f : A -> B) k (fs : list (ustr * A)) : has_field k (map_snd f fs) = has_field k fs.
@@ -742,141 +755,7 @@ Section Roundtrip.
   Qed.
 
 
-  Variable lch : chain lact.
-  Variable fch : chain fact.
-  Variable vch : chain vact.
-  Hypothesis LOK : lit_chain_ok lch = true.
-  Hypothesis FOK : litfn_chain_ok fch = true.
-  Hypothesis VOK : tovalue_chain_ok vch = true.
-
-  (** value_roundtrip for ONE cell evaluated on its own (auxiliary: it ignores that DuckDB gives all members of a
-      column / list one common type; the statements of the property file use [column_roundtrip] below) *)
-  Theorem value_roundtrip : forall v t,
-    supported v = true -> fits v t = true ->
-    pipeline eleaf cleaf pleaf lch fch vch (Some t) v = Some (expected v).
-  Proof.
-    intros v t Hs Hf. unfold pipeline, run.
-    rewrite (lit_top_is_std lch fch LOK FOK).
-    destruct v; try (
-      cbn [supported] in Hs; unfold std_lit_top;
-      rewrite (eval_nested _ Hs), (cast_nested _ _ Hs Hf), (to_value_is_std vch VOK), (client_nested _ Hs),
-              (expected_not_dec _ Hs); reflexivity).
-    (* floats at the top level *)
-    destruct t; try discriminate. destruct f as [|n|b e].
-    - cbn [std_lit_top std_lit_nested eval]. rewrite (e_nan _ _ _ ENV). cbn [cast]. rewrite (c_flt_nan _ _ _ ENV).
-      rewrite (to_value_is_std vch VOK). cbn [client]. rewrite (p_dbl _ _ _ ENV). reflexivity.
-    - cbn [std_lit_top eval]. rewrite (e_str _ _ _ ENV) by (destruct n; reflexivity). cbn [cast].
-      rewrite (c_inf _ _ _ ENV). rewrite (to_value_is_std vch VOK). cbn [client]. rewrite (p_dbl _ _ _ ENV). reflexivity.
-    - cbn [std_lit_top std_lit_nested convert_leaf eval]. rewrite (e_num _ _ _ ENV).
-      destruct e; cbn [cast]; [rewrite (c_dbl _ _ _ ENV)|rewrite (c_dec _ _ _ ENV)];
-        rewrite (to_value_is_std vch VOK); cbn [client]; rewrite (p_dbl _ _ _ ENV); reflexivity.
-  Qed.
 End Roundtrip.
-
-(* ------------------------------------------------------------------------------------------------ *)
-(** * Cells without a CAST: lit() in select(), and columns whose first value is None *)
-
-Fixpoint plainv (v : pyval) : bool :=
-  match v with
-  | PInt z => int64 z
-  | PStr s => nul_free s
-  | PList l => forallb plainv l
-  | PRow fs => negb (match fs with [] => true | _ => false end) && nodup_keys fs
-               && negb (has_field s_key fs && has_field s_value fs)
-               && forallb (fun kv => plainv (snd kv)) fs
-  | PFloat _ | PTuple _ | PDict _ | PDec _ => false
-  | _ => true
-  end.
-
-(** without a CAST a float survives only at the top level (there _create_row turns the Decimal back into a
-    float) and only if it is not an infinity (whose literal is the STRING 'inf') *)
-Definition untyped_ok (v : pyval) : bool :=
-  match v with
-  | PFloat (FInf _) => false
-  | PFloat _ => true
-  | _ => plainv v
-  end.
-
-Lemma plainv_supp : forall v, plainv v = true -> supp v = true.
-Proof.
-  apply (pyval_rect' (fun v => plainv v = true -> supp v = true)); try (intros; assumption); try (intros; reflexivity).
-  - intros f H; discriminate.
-  - intros l IH H. cbn [plainv] in H. cbn [supp]. rewrite Forall_forall in IH. rewrite forallb_forall in *.
-    intros x Hx. apply IH; [exact Hx|apply H; exact Hx].
-  - intros fs IH H. cbn [plainv] in H. cbn [supp].
-    apply andb_true_iff in H. destruct H as [H Hall]. rewrite H. cbn [andb].
-    rewrite Forall_forall in IH. rewrite forallb_forall in *.
-    intros x Hx. apply IH; [exact Hx|apply Hall; exact Hx].
-Qed.
-
-Section Untyped.
-  Variable eleaf : lit -> option dbval.
-  Variable cleaf : sty -> dbval -> option dbval.
-  Variable pleaf : dbval -> pyval.
-  Hypothesis ENV : env_ok eleaf cleaf pleaf.
-
-  Lemma client0_nested : forall v, plainv v = true -> std_to_value (client pleaf (D0 v)) = expected v.
-  Proof.
-    apply (pyval_rect' (fun v => plainv v = true -> std_to_value (client pleaf (D0 v)) = expected v)).
-    - intros _. cbn. rewrite (p_null _ _ _ ENV). reflexivity.
-    - intros b _. cbn. rewrite (p_bool _ _ _ ENV). reflexivity.
-    - intros z _. cbn. rewrite (p_int _ _ _ ENV). reflexivity.
-    - intros f H. discriminate.
-    - intros f H. discriminate.
-    - intros s _. cbn. rewrite (p_str _ _ _ ENV). reflexivity.
-    - intros b _. cbn. rewrite (p_blob _ _ _ ENV). reflexivity.
-    - intros d _. cbn. rewrite (p_date _ _ _ ENV). reflexivity.
-    - intros us tz _. destruct tz; cbn [D0 client]; [rewrite (p_tstz _ _ _ ENV)|rewrite (p_ts _ _ _ ENV)]; reflexivity.
-    - intros l IH H. cbn [plainv] in H. cbn [D0 client expected]. rewrite map_map.
-      destruct l as [|x r]; [reflexivity|].
-      cbn [map std_to_value]. f_equal.
-      rewrite Forall_forall in IH. rewrite forallb_forall in H.
-      change (std_to_value (client pleaf (D0 x)) :: map std_to_value (map (fun x0 => client pleaf (D0 x0)) r))
-        with (map std_to_value (map (fun x0 => client pleaf (D0 x0)) (x :: r))).
-      rewrite map_map. change (expected x :: map expected r) with (map expected (x :: r)).
-      apply map_ext_in. intros a Ha. apply IH; [exact Ha|apply H; exact Ha].
-    - intros l _ H. discriminate.
-    - intros fs IH H. cbn [plainv] in H.
-      apply andb_true_iff in H. destruct H as [H Hall]. apply andb_true_iff in H. destruct H as [_ Hkv].
-      apply negb_true_iff in Hkv.
-      cbn [D0 client expected]. cbn [std_to_value].
-      rewrite (maplike_struct_false) by (rewrite !has_field_map_snd; exact Hkv).
-      f_equal. rewrite Forall_forall in IH. rewrite forallb_forall in Hall.
-      clear Hkv. induction fs as [|[k x] r IHr]; [reflexivity|].
-      cbn [map_snd map fst snd key_name]. fold (@map_snd ustr _ _ D0). fold (@map_snd ustr _ _ expected).
-      pose proof (IH (k, x) (or_introl eq_refl) (Hall (k, x) (or_introl eq_refl))) as Hx. cbn [snd] in Hx.
-      rewrite Hx. rewrite (expected_not_dec x (plainv_supp _ (Hall (k, x) (or_introl eq_refl)))).
-      f_equal. apply IHr; intros.
-      + apply IH; [right; assumption|assumption].
-      + apply Hall; right; assumption.
-    - intros kv _ H. discriminate.
-  Qed.
-
-  Variable lch : chain lact.
-  Variable fch : chain fact.
-  Variable vch : chain vact.
-  Hypothesis LOK : lit_chain_ok lch = true.
-  Hypothesis FOK : litfn_chain_ok fch = true.
-  Hypothesis VOK : tovalue_chain_ok vch = true.
-
-  Theorem untyped_roundtrip : forall v,
-    untyped_ok v = true -> pipeline eleaf cleaf pleaf lch fch vch None v = Some (expected v).
-  Proof.
-    intros v Hs. unfold pipeline, run.
-    rewrite (lit_top_is_std lch fch LOK FOK).
-    destruct v; try (
-      cbn [untyped_ok] in Hs; unfold std_lit_top;
-      rewrite (eval_nested _ _ _ ENV _ (plainv_supp _ Hs)), (to_value_is_std vch VOK), (client0_nested _ Hs),
-              (expected_not_dec _ (plainv_supp _ Hs)); reflexivity).
-    destruct f as [|n|b e].
-    - cbn [std_lit_top std_lit_nested eval]. rewrite (e_nan _ _ _ ENV).
-      rewrite (to_value_is_std vch VOK). cbn [client]. rewrite (p_flt _ _ _ ENV). reflexivity.
-    - discriminate.
-    - cbn [std_lit_top std_lit_nested convert_leaf eval]. rewrite (e_num _ _ _ ENV).
-      rewrite (to_value_is_std vch VOK).
-      destruct e; cbn [client]; [rewrite (p_dbl _ _ _ ENV)|rewrite (p_dec _ _ _ ENV)]; reflexivity.
-  Qed.
-End Untyped.
 
 (* ------------------------------------------------------------------------------------------------ *)
 (** * A reference environment: shows that [env_ok] is satisfiable and lets the check evaluate the model *)
@@ -891,7 +770,10 @@ Definition ref_eleaf (l : lit) : option dbval :=
   | LNum (FFin b e) => Some (if e then DDbl (FFin b e) else DDec (FFin b e))
   | LNum _ => None                                  (* the bare words inf / nan are column references *)
   | LStr s => if nul_free s then Some (DStr s) else None
-  | LCastStr s TFloat => if ueqb s s_NaN then Some (DFlt FNaN) else None
+  | LCastStr s TFloat => if ueqb s s_NaN then Some (DFlt FNaN) else None     (* the unrepaired NaN literal *)
+  | LCastStr s TDouble => if ueqb s s_NaN then Some (DDbl FNaN)
+                          else if ueqb s (s_inf false) then Some (DDbl (FInf false))
+                          else if ueqb s (s_inf true) then Some (DDbl (FInf true)) else None
   | LHex b => Some (DBlob b)
   | LDate d => Some (DDate d)
   | LTs us => Some (DTs us)
@@ -927,8 +809,8 @@ Lemma ref_env_ok : env_ok ref_eleaf ref_cleaf ref_pleaf.
 Proof.
   constructor; try reflexivity.
   - intros s H. cbn. rewrite H. reflexivity.
-  - intros z H. cbn. rewrite H. reflexivity.
   - intros [|]; reflexivity.
+  - intros z H. cbn. rewrite H. reflexivity.
 Qed.
 
 (* ------------------------------------------------------------------------------------------------ *)
